@@ -1,0 +1,31 @@
+package parser
+
+import "testing"
+
+func TestTrimTrailingComments(t *testing.T) {
+	tests := []struct{ sql, want string }{
+		{"select 1", "select 1"},
+		{"select 1  \n", "select 1"},
+		{"select * from t for update /* trace_id=1 */", "select * from t for update"},
+		{"select * from t for update/* a */ /* b */", "select * from t for update"},
+		{"select * from t lock in share mode -- x", "select * from t lock in share mode"},
+		{"select * from t for share # x\n -- y", "select * from t for share"},
+		{"select * from t for update --", "select * from t for update"},
+		{"select 5 --1", "select 5 --1"},
+		{"select '-- a' /* b */", "select '-- a'"},
+		{"select 'it''s /* a */'", "select 'it''s /* a */'"},
+		{"select 'a\\'b -- c' # d", "select 'a\\'b -- c'"},
+		{"select `a#b` -- c", "select `a#b`"},
+		{"select \"/*\" /* x */", "select \"/*\""},
+		{"select 1 /*/ x */", "select 1"},
+		{"select 1 /* unterminated", "select 1"},
+		{"select 'unterminated -- x", "select 'unterminated -- x"},
+		{"/* only */", ""},
+		{"", ""},
+	}
+	for _, tt := range tests {
+		if got := TrimTrailingComments(tt.sql); got != tt.want {
+			t.Errorf("TrimTrailingComments(%q) = %q, want %q", tt.sql, got, tt.want)
+		}
+	}
+}
